@@ -20,10 +20,6 @@ def stopsP : Res → Bool
   | .panic _ => true
   | .ret _ e => decide (e = []) || isTerminating e
 
-def Res.errNil : Res → Bool
-  | .ret _ e => decide (e = [])
-  | .panic _ => true
-
 theorem retryW_log (f : Mach) (dead : Bool) (arg : Int) :
     ∀ (i : Nat) (err : Err) (l : List Res) (s : f.σ) (w : World),
       ∃ new : List Res,
